@@ -62,6 +62,14 @@ func cmdFunc(args []string) int {
 		return 2
 	}
 	for _, k := range fs.Args() {
+		if strings.HasPrefix(k, "lemma:") {
+			e.VerifyLemma(strings.TrimPrefix(k, "lemma:"))
+			continue
+		}
+		if strings.HasPrefix(k, "structural:") {
+			e.VerifyStructural(strings.TrimPrefix(k, "structural:"))
+			continue
+		}
 		if !strings.Contains(k, "::") {
 			fmt.Fprintln(os.Stderr, "function key must be pkgpath::name")
 			return 2
